@@ -561,6 +561,99 @@ func (w *World) SyncTick(n *node.Node, now int64, neigh []Neighbour, ts int64) (
 	return w.syncWith(n, now, neigh, inside, "synctick", map[string]interface{}{"ts": ts, "perm": ids, "_pre": pre}, d)
 }
 
+// TickSync runs the node's validation tick (block production at ts) inside which — between the tick's reads and its
+// AddBlock — a whole sync round (Blockchain.Update(now) against neigh) runs to completion.
+func (w *World) TickSync(n *node.Node, ts int64, now int64, neigh []Neighbour) *Verdict {
+	d := &defs{}
+	pool := append([]*ledger.Transaction(nil), n.Pool.Transactions()...)
+	perm := Perm(ts, len(pool))
+	ids := []string{}
+	for _, i := range perm {
+		ids = append(ids, pool[i].Id())
+	}
+	last := n.Chain.LastBlockTimestamp()
+	for _, t := range pool {
+		w.noteTx(d, t, last+w.S.Interval)
+	}
+	var pre [][4]interface{}
+	for _, t := range pool {
+		w.valsFor(&pre, t, ts, last+w.S.Interval)
+	}
+	var resps []map[string]interface{}
+	var extra []*ledger.Block
+	fired := false
+	hook := func() {
+		fired = true
+		resps, extra = w.roundInside(n, now, neigh)
+	}
+	n.BeforeAddBlock.Store(&hook)
+	func() {
+		defer w.guard("tick")
+		n.Pool.Validate(ts)
+	}()
+	n.BeforeAddBlock.Store(nil)
+	if !fired {
+		// the tick was refused before it reached AddBlock: a plain (refused) tick
+		line := map[string]interface{}{"op": "tick", "node": n.Name, "ts": ts, "perm": ids}
+		return w.finishWith(line, n, d, nil, "tick", pre)
+	}
+	line := map[string]interface{}{"op": "ticksync", "node": n.Name, "ts": ts, "perm": ids, "now": now, "resps": resps, "_pre": pre}
+	return w.finishMerged(line, n, d, extra, "ticksync")
+}
+
+// roundInside runs one sync round and returns what the neighbours answered, in the driver's format (no late answers:
+// the neighbours answer at once)
+func (w *World) roundInside(n *node.Node, now int64, neigh []Neighbour) ([]map[string]interface{}, []*ledger.Block) {
+	type served struct {
+		h     uint64
+		bytes []byte
+		ok    bool
+	}
+	rec := make([][]served, len(neigh))
+	var senders []application.Sender
+	for i := range neigh {
+		i := i
+		nb := neigh[i]
+		calls := 0
+		senders = append(senders, &node.Sender{TargetValue: nb.Target, Blocks: func(h uint64) ([]byte, error) {
+			c := calls
+			calls++
+			b, err := nb.Answer(h, c)
+			rec[i] = append(rec[i], served{h, b, err == nil})
+			return b, err
+		}})
+	}
+	n.Senders.Set(senders)
+	hostLen := len(n.AllBlocks())
+	n.Chain.Update(now)
+	n.Senders.Set(nil)
+	var extra []*ledger.Block
+	resps := []map[string]interface{}{}
+	for i, nb := range neigh {
+		r := map[string]interface{}{"t": nb.Target, "a": nil, "b": nil}
+		for _, s := range rec[i] {
+			var hs interface{}
+			if s.ok {
+				if bs := decodeBlocks(s.bytes); bs != nil {
+					l := []string{}
+					for _, b := range bs {
+						l = append(l, node.HashHex(b))
+						extra = append(extra, b)
+					}
+					hs = l
+				}
+			}
+			if hostLen > 2 && s.h == uint64(hostLen-1) && s.h != 0 {
+				r["a"] = hs
+			} else if s.h == 0 {
+				r["b"] = hs
+			}
+		}
+		resps = append(resps, r)
+	}
+	return resps, extra
+}
+
 // SyncSubmit runs a sync round during which — while the round waits for the first neighbour's answer — a transaction
 // is submitted to the node's pool.
 func (w *World) SyncSubmit(n *node.Node, now int64, neigh []Neighbour, tx *ledger.Transaction) (*Verdict, SyncStats) {
